@@ -114,6 +114,68 @@ class Result:
 
 
 # --------------------------------------------------------------------------
+# hermetic execution: run a function in a forked child of this (pristine) process
+
+def run_isolated(fn, *args, timeout=600):
+    """Fork, run fn(*args) in the child, return its (picklable) result.  The calling process keeps whatever
+    module state it had, so code under test that leaks state between calls cannot make results depend on which
+    process happened to run which scenario."""
+    import pickle
+    import select
+    r, w = os.pipe()
+    sys.stdout.flush()
+    sys.stderr.flush()
+    pid = os.fork()
+    if pid == 0:
+        code = 0
+        try:
+            os.close(r)
+            faulthandler.dump_traceback_later(timeout, exit=True)
+            try:
+                out = ('ok', fn(*args))
+            except BaseException as e:
+                out = ('err', '%s: %s\n%s' % (type(e).__name__, e, traceback.format_exc()))
+            data = pickle.dumps(out, protocol=pickle.HIGHEST_PROTOCOL)
+            view = memoryview(data)
+            while view:
+                n = os.write(w, view[:1 << 20])
+                view = view[n:]
+        except BaseException:
+            code = 3
+        finally:
+            os._exit(code)
+    os.close(w)
+    chunks = []
+    deadline = _real_time() + timeout + 30
+    try:
+        while True:
+            left = deadline - _real_time()
+            if left <= 0:
+                os.kill(pid, 9)
+                raise HarnessError('isolated child exceeded %ds' % timeout)
+            rd, _, _ = select.select([r], [], [], min(left, 5.0))
+            if not rd:
+                continue
+            b = os.read(r, 1 << 20)
+            if not b:
+                break
+            chunks.append(b)
+    finally:
+        os.close(r)
+        try:
+            os.waitpid(pid, 0)
+        except ChildProcessError:
+            pass
+    data = b''.join(chunks)
+    if not data:
+        raise HarnessError('isolated child died without a result')
+    kind, val = pickle.loads(data)
+    if kind == 'err':
+        raise HarnessError('isolated child raised: ' + val)
+    return val
+
+
+# --------------------------------------------------------------------------
 # batch execution
 
 _MODULE = None
@@ -131,26 +193,30 @@ def _worker_init(modname, seed, tier):
         _MODULE.worker_init()
 
 
-def _run_chunk(args):
-    start, specs, cap = args
-    faulthandler.dump_traceback_later(cap, exit=True)
+def _chunk_body(start, specs):
     out = []
-    try:
-        for off, spec in enumerate(specs):
-            idx = start + off
-            try:
-                scen = _MODULE.make_scenario(spec, _SEED, idx)
-                res = _MODULE.run_scenario(scen)
-                p = res.pack()
-                if res.viol or (idx % 997 == 0):
-                    p['scenario'] = scen
-                out.append(p)
-            except BaseException as e:  # harness failure, never a verdict
-                out.append({'harness_error': '%s: %s\n%s' % (type(e).__name__, e, traceback.format_exc()),
-                            'spec': spec})
-    finally:
-        faulthandler.cancel_dump_traceback_later()
-    return start, out
+    for off, spec in enumerate(specs):
+        idx = start + off
+        try:
+            scen = _MODULE.make_scenario(spec, _SEED, idx)
+            res = _MODULE.run_scenario(scen)
+            p = res.pack()
+            if res.viol or (idx % 997 == 0):
+                p['scenario'] = scen
+            if res.viol:
+                p['chunk_start'] = start
+            out.append(p)
+        except BaseException as e:  # harness failure, never a verdict
+            out.append({'harness_error': '%s: %s\n%s' % (type(e).__name__, e, traceback.format_exc()),
+                        'spec': spec})
+    return out
+
+
+def _run_chunk(args):
+    """Each chunk runs in a freshly forked child of a worker that never executes a scenario itself, so the process
+    history a scenario sees is exactly the scenarios before it in its chunk (chunking is independent of the worker count)."""
+    start, specs, cap = args
+    return start, run_isolated(_chunk_body, start, specs, timeout=cap)
 
 
 class Batch:
@@ -194,7 +260,7 @@ class Batch:
             g = self.viol_groups.setdefault((v['cls'], v['key']), {'count': 0})
             g['count'] += 1
             if 'scenario' not in g:
-                g.update(scenario=p['scenario'], index=idx, msg=v['msg'])
+                g.update(scenario=p['scenario'], index=idx, msg=v['msg'], chunk_start=p.get('chunk_start', idx))
 
     def run(self):
         specs = self.m.plan(self.tier, self.seed)
@@ -202,10 +268,12 @@ class Batch:
             specs = specs[:self.runs]
         n = len(specs)
         w = self.workers
-        per = max(1, min(getattr(self.m, 'CHUNK', 64), (n + w * 4 - 1) // (w * 4)))
+        per = getattr(self.m, 'CHUNK', 64)
         cap = getattr(self.m, 'CHUNK_CAP_S', 600)
         chunks = [(s, specs[s:s + per], cap) for s in range(0, n, per)]
         modname = self.m.__name__
+        self.specs = specs
+        self.per = per
         if w == 1:
             _worker_init(modname, self.seed, self.tier)
             for c in chunks:
@@ -254,40 +322,76 @@ def match_open_finding(findings, cls, key):
 # --------------------------------------------------------------------------
 # minimisation and replay
 
-def same_violation(res, cls, key):
-    return any(v['cls'] == cls and v['key'] == key for v in res.viol)
+def same_violation(viol, cls, key):
+    return any(v['cls'] == cls and v['key'] == key for v in viol)
 
 
-def minimise(module, scenario, cls, key, budget_s=60.0, max_evals=4000):
-    cur = scenario
+def _eval(module, scen, history):
+    for h in history:
+        try:
+            module.run_scenario(h)
+        except Exception:
+            pass
+    res = module.run_scenario(scen, keep_events=True)
+    return {'viol': res.viol, 'events': res.events, 'digest': res.digest}
+
+
+def evaluate(module, scen, history=()):
+    """Execute (history..., scenario) in a forked child of this process; the parent never runs a scenario itself."""
+    return run_isolated(_eval, module, scen, list(history), timeout=getattr(module, 'CHUNK_CAP_S', 600))
+
+
+def minimise(module, scenario, cls, key, history=(), budget_s=60.0, max_evals=3000):
     t0 = _real_perf()
     evals = 0
+    history = list(history)
+
+    def still(scen, hist):
+        nonlocal evals
+        evals += 1
+        try:
+            return same_violation(evaluate(module, scen, hist)['viol'], cls, key)
+        except HarnessError:
+            return False
+
+    # 1. shrink the history (drop halves, then single scenarios)
+    step = max(1, len(history) // 2)
+    while history and step >= 1 and _real_perf() - t0 < budget_s / 2:
+        i = 0
+        progress = False
+        while i < len(history) and _real_perf() - t0 < budget_s / 2:
+            cand = history[:i] + history[i + step:]
+            if still(scenario, cand):
+                history = cand
+                progress = True
+            else:
+                i += step
+        if step == 1 and not progress:
+            break
+        step = max(1, step // 2) if step > 1 else (1 if progress else 0)
+    # 2. shrink the scenario
+    cur = scenario
     improved = True
     while improved and _real_perf() - t0 < budget_s and evals < max_evals:
         improved = False
         for cand in module.shrink(cur):
-            evals += 1
-            try:
-                r = module.run_scenario(cand)
-            except Exception:
-                continue
-            if same_violation(r, cls, key):
+            if still(cand, history):
                 cur = cand
                 improved = True
                 break
             if _real_perf() - t0 > budget_s or evals >= max_evals:
                 break
-    return cur, evals
+    return cur, history, evals
 
 
-def write_replay(prop, seed, index, scenario, viol, events, digest, suffix=''):
+def write_replay(prop, seed, index, scenario, viol, events, digest, suffix='', history=()):
     os.makedirs(REPLAY_DIR, exist_ok=True)
     name = '%s-%d-%d%s.json' % (prop, seed, index, suffix)
     path = os.path.join(REPLAY_DIR, name)
     with open(path, 'w') as f:
         json.dump({'property': prop, 'seed': seed, 'index': index, 'violation': viol,
-                   'tree': tree_identity(), 'digest': digest, 'scenario': scenario,
-                   'events': events}, f, indent=1, default=repr)
+                   'tree': tree_identity(), 'digest': digest, 'history_dependent': bool(history),
+                   'history': list(history), 'scenario': scenario, 'events': events}, f, indent=1, default=repr)
     return path
 
 
@@ -304,6 +408,14 @@ def do_replay(module, path):
         rp = json.load(f)
     if hasattr(module, 'worker_init'):
         module.worker_init()
+    hist = rp.get('history') or []
+    if hist:
+        print('replaying %d earlier scenario(s) of the same process first (history-dependent violation)' % len(hist))
+    for h in hist:
+        try:
+            module.run_scenario(h)
+        except Exception as e:
+            print('  (history scenario raised %s)' % type(e).__name__)
     res = module.run_scenario(rp['scenario'], keep_events=True)
     want = rp.get('violation') or {}
     for e in (res.events or [])[:400]:
@@ -409,27 +521,37 @@ def run_check(module, tier, seed, workers=None, runs=None, verify_replay=True):
     n_viol = 0
     for cls, key, g in new[:getattr(module, 'MAX_REPORTS', 6)]:
         scen = g['scenario']
-        if hasattr(module, 'worker_init') and not getattr(module, '_parent_inited', False):
-            module.worker_init()
-            module._parent_inited = True
-        small, evals = minimise(module, scen, cls, key, budget_s=getattr(module, 'SHRINK_BUDGET_S', 60.0))
-        res = module.run_scenario(small, keep_events=True)
-        if not same_violation(res, cls, key):
-            small = scen
-            res = module.run_scenario(small, keep_events=True)
-        v = [x for x in res.viol if x['cls'] == cls and x['key'] == key]
+        history = []
+        first = evaluate(module, scen)
+        if not same_violation(first['viol'], cls, key):
+            # not reproducible from a pristine process: the outcome depends on what ran earlier in the same process.
+            # Rebuild that history (the scenarios of the same chunk before it) - deterministic from (seed, index).
+            cs = g.get('chunk_start', g['index'])
+            history = [module.make_scenario(batch.specs[i], seed, i) for i in range(cs, g['index'])]
+            again = evaluate(module, scen, history)
+            if not same_violation(again['viol'], cls, key):
+                print('HARNESS-ERROR violation cls=%s key=%s at index %d reproduces neither alone nor after its chunk history'
+                      % (cls, key, g['index']))
+                return 2
+        small, hist, evals = minimise(module, scen, cls, key, history, budget_s=getattr(module, 'SHRINK_BUDGET_S', 60.0))
+        res = evaluate(module, small, hist)
+        if not same_violation(res['viol'], cls, key):
+            small, hist = scen, history
+            res = evaluate(module, small, hist)
+        v = [x for x in res['viol'] if x['cls'] == cls and x['key'] == key]
         if not v:
-            print('HARNESS-ERROR violation cls=%s key=%s at index %d did not reproduce in the parent process' % (cls, key, g['index']))
+            print('HARNESS-ERROR violation cls=%s key=%s at index %d did not reproduce after minimisation' % (cls, key, g['index']))
             return 2
         suffix = '-' + hashlib.sha256(('%s|%s' % (cls, key)).encode()).hexdigest()[:6]
-        path = write_replay(module.ID, seed, g['index'], small, v[0], res.events, res.digest, suffix)
+        path = write_replay(module.ID, seed, g['index'], small, v[0], res['events'], res['digest'], suffix, hist)
         if verify_replay:
             code, out = replay_fresh(module.ID, path)
-            if code != 1 or ('digest=%s ' % res.digest) not in out:
+            if code != 1 or ('digest=%s ' % res['digest']) not in out:
                 print('HARNESS-ERROR replay of %s in a fresh interpreter did not reproduce identically (exit %d)\n%s' % (path, code, out[-2000:]))
                 return 2
         n_viol += g['count']
-        print('violation class=%s key=%s runs=%d shrink_evals=%d :: %s' % (cls, key, g['count'], evals, v[0]['msg']))
+        hd = ' HISTORY-DEPENDENT (needs %d earlier scenario(s) in the same process: state leaks between calls)' % len(hist) if hist else ''
+        print('violation class=%s key=%s runs=%d shrink_evals=%d%s :: %s' % (cls, key, g['count'], evals, hd, v[0]['msg']))
         print('VIOLATION property=%s replay=%s' % (module.ID, path))
         rc = 1
     if len(new) > getattr(module, 'MAX_REPORTS', 6):
